@@ -79,6 +79,22 @@ func genUnknownField(t *rapid.T, flags map[string]bool) []byte {
 		flags["group"] = true
 		g := wTag(nil, num, 3)
 		g = wVarint(wTag(g, 1, 0), 5)
+		// groups nest: a group inside the group, with another field number or with the very same one (the inner end marker
+		// then looks like the outer one), one or two levels deep, followed by more fields of the outer group
+		for depth := rapid.IntRange(0, 2).Draw(t, "groupDepth"); depth > 0; depth-- {
+			inner := num
+			if rapid.Bool().Draw(t, "innerOtherNumber") {
+				inner = num - 1
+			}
+			flags["nested-group"] = true
+			g = wTag(g, inner, 3)
+			g = wBytes(g, 2, []byte("in"))
+			if depth > 1 {
+				g = wTag(wTag(g, num, 3), num, 4) // an empty group of the outer number inside the inner one
+			}
+			g = wTag(g, inner, 4)
+			g = wVarint(wTag(g, 3, 0), uint64(depth))
+		}
 		return wTag(g, num, 4)
 	}
 }
